@@ -222,6 +222,20 @@ pub fn concat_twin_trees() -> Vec<E> {
         push(E::T(Tst::Name(s(p))), E::T(Tst::IName(s(p))), &mut out);
         push(E::T(Tst::IPath(s(p))), E::T(Tst::Path(s(p))), &mut out);
     }
+    // strings that differ only by blanks at either end (a registry keyed by a trimmed or otherwise
+    // normalised string takes them for one request; the directed file set holds an instance of each)
+    for p in ["foo", "a*", "*.txt", "é", "x y", "[ab]c"] {
+        for v in [format!("{p} "), format!(" {p}"), format!("{p}\t"), format!("\t{p}"), format!("{p}\n"), format!("{p}\u{a0}"), format!(" {p} "), format!("{p}  ")] {
+            push(E::T(Tst::Name(s(p))), E::T(Tst::Name(v.clone())), &mut out);
+            push(E::T(Tst::IName(v.clone())), E::T(Tst::IName(s(p))), &mut out);
+            push(E::T(Tst::Path(s(p))), E::T(Tst::Path(v.clone())), &mut out);
+            push(E::T(Tst::IPath(v.clone())), E::T(Tst::IPath(s(p))), &mut out);
+            push(E::T(Tst::Pool(s(p))), E::T(Tst::Pool(v.clone())), &mut out);
+            push(E::T(Tst::XattrMatch(s("user.a"), v.clone())), E::T(Tst::XattrMatch(s("user.a"), s(p))), &mut out);
+            out.push(E::and(E::A(Act::FPrint(s(p))), E::A(Act::FPrint(v.clone()))));
+            out.push(E::list(E::A(Act::FPrint0(v.clone())), E::A(Act::FPrint0(s(p)))));
+        }
+    }
     // file destinations: name + terminator
     let fmt = || vec![FEl::F(Fld::NameNoStart)];
     for name in ["out", "a b", "é"] {
